@@ -10,8 +10,7 @@
    budget is (node limit, answers of the deadline callback at the successive checkpoints) and is
    universally quantified everywhere: `unlimited` is the plain operation, anything else its try_* twin. *)
 Require Import KV.Sdd.Model KV.Sdd.Sem KV.Sdd.Spec KV.Sdd.History.
-Require Import KV.Sdd.Decomp KV.Sdd.Hoare KV.Sdd.MainProofs KV.Sdd.WmcProofs.
-Require Import KV.Sdd.Canon3Defs KV.Sdd.Canon3 KV.Sdd.Canon3b.
+Require Import KV.Sdd.Decomp KV.Sdd.Hoare KV.Sdd.MainProofs KV.Sdd.WmcProofs KV.Sdd.DecompHist KV.Sdd.BudgetSim.
 Require Import QArith.
 
 (* (1) apply is exact: whatever the budget and the fuel, IF it returns a handle, the handle denotes
@@ -87,6 +86,17 @@ Theorem C07_budget :
 Proof. exact budget_safe. Qed.
 Print Assumptions C07_budget.
 
+(* ... and the literal reading of "a budgeted operation either returns the same result as the unbudgeted
+   one or reports exhaustion": whenever the call under ANY budget returns Ok r (ending in manager m'), the
+   plain call with the same fuel returns the same handle r and ends in the same manager m'.  (No invariant is
+   needed: the budget is only consulted by checkpoint / before_allocation, which never touch the manager.) *)
+Theorem C07_budget_same_result :
+  forall fuel c m bud m' bud' r,
+    run_call fuel c (m, bud) = ((m', bud'), Ok r) ->
+    exists b1, run_call fuel c (m, unlimited) = ((m', b1), Ok r).
+Proof. exact budget_same_result. Qed.
+Print Assumptions C07_budget_same_result.
+
 (* Exactness and interruption safety over whole histories: starting from the empty manager, for
    every sequence of variable registrations (any order, interleaved), literal, and, or, negate,
    exactly_one operations, each plain or under an arbitrary budget (so any of them may be interrupted
@@ -104,32 +114,49 @@ Print Assumptions C07_history_exact.
 
 (* (3) weighted model count = truth-table weighted sum.
    `wsum pos neg vs f sigma0` is the sum over all 2^|vs| assignments of the variables vs (the other
-   variables read from sigma0) of the product of the literal weights times f.  Hypotheses, all decidable
-   and all evaluated by the check on every model state it reaches:
-     - normalised vs m : pos v + neg v = 1 for the variables of vs (the Independent encoding; this is the
-       smoothness caveat: the trimmed diagram is not smooth, a variable that does not occur on a path
-       contributes the factor 1, which equals pos+neg only for normalised weights; exclusive-group
-       variables (neg = 1) are outside this theorem and are checked against the truth-table sum only
-       numerically, on formulas conjoined with the group's exactly-one constraint);
-     - lits_in vs m : every literal of the arena is over a variable of vs;
-     - decomp_ok m : every (prime, sub) element of every Decision node is decomposable (disjoint
-       variable sets).  PARTIAL: that every manager reachable by a history satisfies decomp_ok is not
-       proved (it needs the vtree-respecting invariant through apply); the check evaluates decomp_ok on
-       the final manager of every generated history.  Full statement (not proved):
-         forall fuel ops s outs, run_from fuel rinit ops = (s, outs) -> normalised vs (rm s) = true ->
-           lits_in vs (rm s) = true -> forall i, wmc (rm s) (hnd s i) == wsum ... (feval . (frm s i)). *)
-Theorem C07_wmc_partial :
+   variables read from sigma0) of the product of the literal weights times f.
+   Hypotheses (both decidable):
+     - run_ok: literals / exactly_one are only requested over variables registered before (the API's
+       documented precondition; `literal` on an unregistered variable makes later applies panic);
+     - normalised: pos v + neg v = 1 for every registered variable (the Independent encoding).  This is the
+       smoothness caveat made explicit: the trimmed diagram is not smooth, a variable that does not occur on
+       a path contributes the factor 1, which equals pos+neg only for normalised weights.  Exclusive-group
+       variables (neg = 1) are therefore OUTSIDE this theorem; for them the check compares wmc numerically with
+       the truth-table sum on formulas conjoined with the group's exactly-one constraint.
+   For every history (any order of registration, any budgets, any interruptions) and every handle slot:
+   wmc = sum over the truth table of the slot's formula. *)
+Theorem C07_wmc :
+  forall fuel ops s outs i sigma0,
+    run_from fuel rinit ops = (s, outs) -> run_ok fuel rinit ops = true ->
+    normalised (map fst (var2vt (rm s))) (rm s) = true ->
+    wmc (rm s) (hnd s i) ==
+    wsum (pos_of (rm s)) (neg_of (rm s)) (map fst (var2vt (rm s))) (fun sg => b2q (feval sg (frm s i))) sigma0.
+Proof. exact history_wmc. Qed.
+Print Assumptions C07_wmc.
+
+(* the structural fact behind it: every reachable manager is decomposable (every Decision element's prime
+   and sub have disjoint variable sets: the Decision nodes respect the dynamically grown vtree) *)
+Theorem C07_decomposable :
+  forall fuel ops s outs,
+    run_from fuel rinit ops = (s, outs) -> run_ok fuel rinit ops = true ->
+    decomp_ok (rm s) = true /\ lits_in (map fst (var2vt (rm s))) (rm s) = true.
+Proof. exact history_decomp. Qed.
+Print Assumptions C07_decomposable.
+
+(* the same for an arbitrary manager satisfying the invariant and the (decidable) decomposability check *)
+Theorem C07_wmc_manager :
   forall m vs id sigma0,
     MInv m -> decomp_ok m = true -> lits_in vs m = true -> normalised vs m = true -> validh m id ->
     wmc m id == wsum (pos_of m) (neg_of m) vs (fun s => b2q (den m id s)) sigma0.
 Proof. exact wmc_sum. Qed.
-Print Assumptions C07_wmc_partial.
+Print Assumptions C07_wmc_manager.
 
 (* (5, stretch) gradient of an Independent variable v: diff_sdd::wmc_gradient computes
    wmc[pos v := 1, neg v := 0] - wmc[pos v := 0, neg v := 1], which (by the theorem above, applied to the two
    re-weighted managers) is the truth-table sum with v forced true minus the one with v forced false, i.e. the
-   derivative of the truth-table sum in pos v when neg v = 1 - pos v.  Same partiality as C07_wmc_partial
-   (decomp_ok is a hypothesis); exclusive-group variables are only compared numerically by the check. *)
+   derivative of the truth-table sum in pos v when neg v = 1 - pos v.  (decomp_ok / lits_in hold for every
+   reachable manager by C07_decomposable.)  PARTIAL w.r.t. the property: exclusive-group variables are only
+   compared numerically by the check. *)
 Theorem C07_gradient_indep_partial :
   forall m vs id v sigma0,
     MInv m -> decomp_ok m = true -> lits_in vs m = true -> validh m id ->
@@ -141,33 +168,18 @@ Theorem C07_gradient_indep_partial :
 Proof. exact grad_indep. Qed.
 Print Assumptions C07_gradient_indep_partial.
 
-(* (4) BOUNDED canonicity, three variables.  m3 order / h3 order: the model's manager after registering
-   variables 0,1,2 in the given order and building all 256 functions as disjunctions of minterms, and
-   the table of their handles.  Proved by evaluating the sweep (2 x 65536 applies + 256 negates) with the
-   kernel's VM and lifting with forallb_forall: the 256 handles are pairwise distinct, each denotes its
-   truth table, and apply / negate of ANY operands among them return exactly the handle of the result's
-   truth table - so on this domain handles are equal iff truth tables are equal.
-   This is a statement about a finite domain.  Unbounded canonicity,
-       forall history, forall slots i j, (forall sigma, den i sigma = den j sigma) -> handle i = handle j,
-   is NOT proved (Darwiche's canonicity theorem for compressed trimmed SDDs over a growing vtree); the
-   check tests it on every generated handle. *)
-Theorem C07_canonical_3 :
-  canonical3 FUEL3 (m3 [0; 1; 2]%N) (h3 [0; 1; 2]%N) /\ canonical3 FUEL3 (m3 [2; 0; 1]%N) (h3 [2; 0; 1]%N).
-Proof. exact (conj canonical3_012 canonical3_201). Qed.
-Print Assumptions C07_canonical_3.
-
 (* ---- non-vacuity ------------------------------------------------------------------------------------ *)
 (* the empty manager satisfies the invariant *)
 Example C07_inv_inhabited : MInv mgr_new.
 Proof. exact MInv_new. Qed.
 
-(* the hypotheses of C07_wmc_partial are met by a concrete reachable manager, and the value is 27/50 *)
+(* the hypotheses of C07_wmc are met by a concrete reachable manager, and the value is 27/50 *)
 Example C07_wmc_example :
   let ops := [OVar 2 (4#5) (1#5) Indep; OVar 0 (3#5) (2#5) Indep; OVar 1 (1#2) (1#2) Indep;
               OLit 0 true None; OLit 1 true None; OLit 2 true None;
               OApply 0 1 And None; OApply 0 2 And None; OApply 3 4 Or None]%N in
   let s := fst (run_from 100 rinit ops) in
-  decomp_ok (rm s) = true /\ lits_in [0; 1; 2]%N (rm s) = true /\ normalised [0; 1; 2]%N (rm s) = true /\
+  run_ok 100 rinit ops = true /\ normalised (map fst (var2vt (rm s))) (rm s) = true /\
   Qeq_bool (wmc (rm s) (hnd s 5)) (27#50) = true.
 Proof. vm_compute. repeat split; reflexivity. Qed.
 
